@@ -25,6 +25,13 @@ def _readers(db):
     return fs
 
 
+def _strip_casts(f, i):
+    n = f.nodes.get(i)
+    while n is not None and n["k"] == "cast" and n.get("a"):
+        n = f.nodes.get(n["a"][0])
+    return expr_str(f, n["i"]) if n is not None else "?"
+
+
 def rule_store_after_validate(ctx):
     db = ctx.db
     r = ctx.rule("store-after-validate", "every store to m_val in read_number/read_enum/Option<bool>::read is controlled by a true edge of "
@@ -47,6 +54,20 @@ def rule_store_after_validate(ctx):
                 or any((re.match(r"opt->type\(\) != ", c) and pol is False) for c, pol in conds)
             inst = "%s/%s" % (f.qn.replace("uncrustify::", "") + f.d["sig"].split(",")[-1].strip(")"), expr_str(f, x["a"][1])[:40])
             r.check(ok, inst, db.loc(f, x), "option value stored without a passed validate()/type test; controlling conditions: %s" % conds)
+            # the value that is stored is the value that was validated (not, e.g., its negation)
+            vargs = []
+            for cn, pol in f.guard_conds(f.nblock[x["i"]]):
+                c = f.nodes.get(cn) if cn is not None else None
+                if c is not None and pol is False and c["k"] == "un" and c.get("op") == "!":
+                    c, pol = f.nodes.get(c["a"][0]), True
+                    while c is not None and c["k"] == "cast":
+                        c = f.nodes.get(c["a"][0])
+                if c is not None and pol is True and c["k"] == "call" and (c.get("c") or "").endswith("::validate") and c.get("a"):
+                    vargs.append(_strip_casts(f, c["a"][0]))
+            if vargs:
+                stored = _strip_casts(f, x["a"][1])
+                r.check(stored in vargs, inst + "/stores-what-was-validated", db.loc(f, x),
+                        "validate() was applied to `%s` but `%s` is stored" % (", ".join(vargs), stored))
     r.floor(7)
 
 
@@ -74,7 +95,12 @@ def rule_fail_warns(ctx):
                 if t:
                     c = t.get("lc", t.get("c"))
                     cn = f.nodes.get(c)
-                    if cn is not None and cn["k"] == "call" and (cn.get("c") or "").endswith("::validate") and i == 1:
+                    warned_edge = 1
+                    while cn is not None and (cn["k"] == "cast" or (cn["k"] == "un" and cn.get("op") == "!")):
+                        if cn["k"] == "un":
+                            warned_edge = 1 - warned_edge      # `if (!validate(x))`: the true edge is the failed validation
+                        cn = f.nodes.get(cn["a"][0])
+                    if cn is not None and cn["k"] == "call" and (cn.get("c") or "").endswith("::validate") and i == warned_edge:
                         return False
                 return True
             w = f.paths_avoiding(f.entry, lambda n: n["i"] == x["i"], warned, start_is_node=False, edge_ok=edge_ok)
@@ -163,7 +189,7 @@ def regex_ctor(n):
 
 def rule_no_throw(ctx, pid="C16"):
     db = ctx.db
-    r = ctx.rule("no-throw", "every std::stoi-family call is dominated by a digits-only and length check of the very container it "
+    r = ctx.rule("no-throw", "every std::stoi-family call is dominated by a non-empty, digits-only and length check of the very container it "
                  "converts (the elements are erased otherwise); nothing in the repository catches exceptions, so an unchecked one aborts")
     sites = []
     for f in db.funcs.values():
@@ -189,7 +215,11 @@ def rule_no_throw(ctx, pid="C16"):
                 if m["k"] == "call" and (m.get("c") or "").endswith("::clear") and expr_str(f, m.get("o")) == root:
                     conds = "".join(expr_str(f, cn) for cn, pol in f.guard_conds(f.nblock[m["i"]]) if cn is not None and pol is True)
                     if 'find_first_not_of("0123456789"' in conds and ".size() >" in conds and f.dominates_block(_loop_header_of(f, m), f.nblock[n["i"]]):
-                        ok = True
+                        # std::stoi("") throws std::invalid_argument: the check must reject the empty string as well
+                        if ".empty()" in conds or re.search(r"\.size\(\) (< 1|== 0|<= 0)", conds):
+                            ok = True
+                        else:
+                            why = "the digits/length check of `%s` accepts the empty string" % root
         # idiom (b): the argument is sub-match k of a regex literal whose k-th capturing group is [0-9]{1,N}, N <= 9
         m2 = re.match(r"(\w+)\[(\d+)\]\.str\(\)$", expr_str(f, arg))
         if not ok and m2:
@@ -360,4 +390,120 @@ def rule_nl_max_guard(ctx, rid="nl-max-guard"):
     r.floor(20)
 
 
-RULES = [rule_store_after_validate, rule_fail_warns, rule_no_silent_line, rule_no_throw, rule_unsigned_bounded, rule_nl_max_guard]
+def _sccs(nodes, succ):
+    """Tarjan, iterative; yields lists of nodes"""
+    index = {}
+    low = {}
+    onstack = set()
+    stack = []
+    out = []
+    counter = [0]
+    for root in nodes:
+        if root in index:
+            continue
+        work = [(root, iter(succ(root)))]
+        index[root] = low[root] = counter[0]
+        counter[0] += 1
+        stack.append(root)
+        onstack.add(root)
+        while work:
+            v, it = work[-1]
+            advanced = False
+            for w in it:
+                if w not in index:
+                    index[w] = low[w] = counter[0]
+                    counter[0] += 1
+                    stack.append(w)
+                    onstack.add(w)
+                    work.append((w, iter(succ(w))))
+                    advanced = True
+                    break
+                elif w in onstack:
+                    low[v] = min(low[v], index[w])
+            if advanced:
+                continue
+            work.pop()
+            if work:
+                low[work[-1][0]] = min(low[work[-1][0]], low[v])
+            if low[v] == index[v]:
+                comp = []
+                while True:
+                    w = stack.pop()
+                    onstack.discard(w)
+                    comp.append(w)
+                    if w == v:
+                        break
+                out.append(comp)
+    return out
+
+
+def rule_bounded_recursion(ctx):
+    """`include` makes the configuration reader recursive; a file that includes itself must be refused, not recursed into
+    until the stack overflows (found on the pinned tree: segmentation fault, repaired by a fix: commit)."""
+    db = ctx.db
+    r = ctx.rule("bounded-recursion", "every call-graph cycle reachable from load_option_file() passes a depth guard: in one function of the "
+                 "cycle a comparison of a static counter with a bound leads to exit/return and dominates the call that continues the cycle, "
+                 "and the counter is incremented before that call")
+    root = db.fn("uncrustify::load_option_file", file=OPT)
+    reach = db.reachable_from([root])
+    succ = lambda k: [c for c in db._callees.get(k, ()) if c in reach and c in db.funcs]
+    cyc = [c for c in _sccs(sorted(reach), succ) if len(c) > 1 or c[0] in succ(c[0])]
+    r.require(cyc, "the configuration reader is no longer recursive (include directive gone?): drop this rule's expectations")
+    from .c11 import gstate
+    gs = gstate(db)
+    for comp in cyc:
+        comp = set(comp)
+        names = sorted(db.funcs[k].qn.replace("uncrustify::", "") for k in comp)
+        inst = "cycle/" + "+".join(names)
+        guarded = None
+        for k in sorted(comp):
+            f = db.funcs[k]
+            # calls that continue the cycle
+            cont = [n for n in f.nodes.values() if n["k"] in ("call", "ctor") and any(t in comp for t in gs.call_targets(f, n))]
+            if not cont:
+                continue
+            # candidate guards: blocks whose terminator compares a static-storage variable and whose true edge cannot return normally
+            for b, blk in f.blocks.items():
+                t = blk.get("term")
+                c = f.nodes.get(t.get("lc", t.get("c"))) if t else None
+                if c is None or c["k"] != "bin" or c.get("op") not in (">=", ">", "==", "<", "<="):
+                    continue
+                var = None
+                for x in walk(f, c["i"]):
+                    if x["k"] == "ref" and x.get("d") in ("sl", "gv", "sv"):
+                        if not (x.get("t") or "").startswith("const"):
+                            var = x
+                if var is None:
+                    continue
+                tb = f.succ[b][0]
+                if tb < 0 or f.exit_reachable_avoiding(tb, lambda n: False, start_is_node=False) and not any(m["k"] == "ret" for m in f.blocks[tb]["n"]):
+                    # the guarded arm must end the function (exit / return), not fall through to the recursive call
+                    if not f.blocks[tb].get("nr"):
+                        continue
+                if not all(f.dominates_block(b, f.nblock[n["i"]]) for n in cont):
+                    continue
+                # the counter is incremented in f, or in a constructor called in f, before the continuing call
+                incs = []
+                for m in f.nodes.values():
+                    if m["k"] == "un" and m.get("op") == "++" and expr_str(f, m["a"][0]) == var["n"]:
+                        incs.append(m)
+                    if m["k"] in ("ctor", "call", "decl"):
+                        for tk in gs.call_targets(f, m):
+                            g = db.funcs.get(tk)
+                            if g is not None and any(y["k"] == "un" and y.get("op") == "++" and expr_str(g, y["a"][0]) == var["n"] for y in g.nodes.values()):
+                                incs.append(m)
+                if any(all(f.dominates(m["i"], n["i"]) for n in cont) for m in incs):
+                    guarded = (f, b, var["n"])
+                    break
+            if guarded:
+                break
+        r.seen()
+        r.check(guarded is not None, inst, db.loc(db.funcs[sorted(comp)[0]], db.funcs[sorted(comp)[0]].l0),
+                "the recursion %s has no depth guard: a configuration file that includes itself overflows the stack" % " -> ".join(names),
+                )
+        if guarded:
+            r.note("%s: guarded by `%s` in %s" % (inst, guarded[2], guarded[0].qn))
+    r.floor(1)
+
+
+RULES = [rule_store_after_validate, rule_fail_warns, rule_no_silent_line, rule_no_throw, rule_unsigned_bounded, rule_nl_max_guard, rule_bounded_recursion]
